@@ -1,4 +1,4 @@
-package main
+package main_test
 
 // In-process handler driver and child-process server driver (C10, C20, C02 thorough).
 
